@@ -270,7 +270,10 @@ fn run_case_inner(ctx: &mut Ctx, c: &Case) {
             }
         });
         if let Some(b) = bad {
-            viol(ctx, "hole-rescoped-inside-solution", &b, c);
+            // signed_shift leaving an unresolved hole below the cutoff untouched is one of the two
+            // call sites of the recorded finding about holes carried through substitution
+            let key = if hooks.open_unresolved > 0 || hooks.shift_unresolved_below_cutoff > 0 { D3_KEY.to_owned() } else { "hole-rescoped-inside-solution".to_owned() };
+            viol(ctx, &key, &b, c);
             return;
         }
         ctx.count("solutions-scope-checked");
